@@ -16,23 +16,34 @@ import (
 // built (backward slice) by ctor with the LogRecordType constant `typ` as an argument.
 func appendSitesOfType(w *World, fn *ssa.Function, typ *types.Const) []ssa.Instruction {
 	a := w.A()
-	var out []ssa.Instruction
-	EachCall(fn, func(c ssa.CallInstruction) {
+	direct := func(in ssa.Instruction) bool {
+		c, ok := in.(ssa.CallInstruction)
+		if !ok {
+			return false
+		}
 		if o := CalleeObj(c); o == nil || o != a.LMAppend {
-			return
+			return false
 		}
 		if _, d := c.(*ssa.Defer); d {
-			return
+			return false
 		}
 		args := c.Common().Args
 		if len(args) == 0 {
-			return
+			return false
 		}
-		rec := args[len(args)-1]
-		if recordHasType(w, rec, typ) {
-			out = append(out, c)
+		return recordHasType(w, args[len(args)-1], typ)
+	}
+	// a call of a helper that appends such a record on every path counts as the append site
+	summ := NewSumm(w, direct, a.assumeLogging())
+	summ.MaxDepth = 3
+	var out []ssa.Instruction
+	for _, b := range fn.Blocks {
+		for _, in := range b.Instrs {
+			if summ.MustSite(in) {
+				out = append(out, in)
+			}
 		}
-	})
+	}
 	return out
 }
 
@@ -257,12 +268,87 @@ func init() {
 		a := w.A()
 		pw := a.pageWriteSumm()
 		cuts := []EdgeCut{a.assumeLogging()}
-		isAppend := InstrCallsObj(a.LMAppend)
+		directAppend := InstrCallsObj(a.LMAppend)
+		appendSumm := NewSumm(w, directAppend, a.assumeLogging())
+		appendSumm.MaxDepth = 3
+		isAppend := appendSumm.MustSite // the call itself, or a helper that appends on every path
+		// stampOK: after the append site `ap` (in fn) the page LSN and the txn's prevLSN are set from the LSN it
+		// returned, on every path to return; for a helper call the helper may do it itself.
+		var stampOK func(fn *ssa.Function, ap ssa.Instruction, depth int) (bool, string)
+		stampOK = func(fn *ssa.Function, ap ssa.Instruction, depth int) (bool, string) {
+			apv, _ := ap.(ssa.Value)
+			dependsOnAppend := func(arg ssa.Value) bool {
+				return apv != nil && DependsOn(arg, func(v ssa.Value) bool { return v == apv })
+			}
+			mk := func(obj *types.Func) func(ssa.Instruction) bool {
+				return func(in ssa.Instruction) bool {
+					c, ok := in.(*ssa.Call)
+					if !ok || CalleeObj(c) != obj {
+						return false
+					}
+					args := c.Call.Args
+					return dependsOnAppend(args[len(args)-1])
+				}
+			}
+			w1 := (&PathQ{Fn: fn, Cut: cuts, Avoid: mk(a.PageSetLSN), Target: isReturn}).FromAfter([]ssa.Instruction{ap})
+			w2 := (&PathQ{Fn: fn, Cut: cuts, Avoid: mk(a.TxnSetPrevLSN), Target: isReturn}).FromAfter([]ssa.Instruction{ap})
+			if w1 == nil && w2 == nil {
+				return true, ""
+			}
+			// helper that stamps by itself?
+			if c, ok := ap.(ssa.CallInstruction); ok && !directAppend(ap) && depth < 2 {
+				all := true
+				for _, cal := range w.Callees(c) {
+					inner := false
+					for _, b := range cal.Blocks {
+						for _, in := range b.Instrs {
+							if isAppend(in) {
+								inner = true
+								if ok, _ := stampOK(cal, in, depth+1); !ok {
+									all = false
+								}
+							}
+						}
+					}
+					if !inner {
+						all = false
+					}
+				}
+				if all {
+					return true, ""
+				}
+			}
+			if w1 != nil {
+				return false, "page LSN not set from the appended record's LSN: " + w.DescribeWitness(fn, w1)
+			}
+			return false, "txn.prevLSN not chained to the appended record's LSN: " + w.DescribeWitness(fn, w2)
+		}
+		// prevLSNInRecord: the record appended at `ap` is built from txn.GetPrevLSN()
+		var prevInRecord func(fn *ssa.Function, ap ssa.Instruction, depth int) bool
+		prevInRecord = func(fn *ssa.Function, ap ssa.Instruction, depth int) bool {
+			c := ap.(ssa.CallInstruction)
+			if directAppend(ap) {
+				rec := c.Common().Args[len(c.Common().Args)-1]
+				return DependsOn(rec, IsCallTo(a.TxnGetPrevLSN))
+			}
+			if depth >= 2 {
+				return false
+			}
+			for _, cal := range w.Callees(c) {
+				for _, b := range cal.Blocks {
+					for _, in := range b.Instrs {
+						if isAppend(in) && !prevInRecord(cal, in, depth+1) {
+							return false
+						}
+					}
+				}
+			}
+			return true
+		}
 		n := 0
 		for _, o := range []*types.Func{a.TPInsert, a.TPUpdate, a.TPMarkDelete, a.TPApplyDelete, a.TPRollbackDelete, a.TPInit} {
 			fn := w.SSA(o)
 			name := "TablePage." + o.Name()
-			// page-write sites (LSN stamping itself excluded)
 			var writes, appends []ssa.Instruction
 			for _, b := range fn.Blocks {
 				for _, in := range b.Instrs {
@@ -283,7 +369,6 @@ func init() {
 			r.Floor(name+" page-write sites", len(writes), 1)
 			r.Floor(name+" AppendLogRecord sites", len(appends), 1)
 			n++
-			// a path entry -> w -> return with no append anywhere
 			bad := ""
 			for _, wr := range writes {
 				pre := (&PathQ{Fn: fn, Cut: cuts, Avoid: isAppend, Target: func(in ssa.Instruction) bool { return in == wr }}).FromEntry()
@@ -297,37 +382,11 @@ func init() {
 				}
 			}
 			r.Check(bad == "", name+":every-page-write-is-logged", "no entry->return path writes page bytes without appending a log record", bad)
-			// after each append: SetLSN(dep on append result) and SetPrevLSN(dep) before return
-			for _, ap := range appends {
-				apv, _ := ap.(ssa.Value)
-				dependsOnAppend := func(arg ssa.Value) bool {
-					return DependsOn(arg, func(v ssa.Value) bool { return v == apv })
-				}
-				isStamp := func(in ssa.Instruction) bool {
-					c, ok := in.(*ssa.Call)
-					if !ok || CalleeObj(c) != a.PageSetLSN {
-						return false
-					}
-					args := c.Call.Args
-					return dependsOnAppend(args[len(args)-1])
-				}
-				isChain := func(in ssa.Instruction) bool {
-					c, ok := in.(*ssa.Call)
-					if !ok || CalleeObj(c) != a.TxnSetPrevLSN {
-						return false
-					}
-					args := c.Call.Args
-					return dependsOnAppend(args[len(args)-1])
-				}
-				k := ordinalIn(fn, ap, a.LMAppend)
-				wit := (&PathQ{Fn: fn, Cut: cuts, Avoid: isStamp, Target: isReturn}).FromAfter([]ssa.Instruction{ap})
-				r.Check(wit == nil, name+":SetLSN-after-append"+k, "page LSN is set from the LSN returned by AppendLogRecord on every path", "path: "+w.DescribeWitness(fn, wit))
-				wit = (&PathQ{Fn: fn, Cut: cuts, Avoid: isChain, Target: isReturn}).FromAfter([]ssa.Instruction{ap})
-				r.Check(wit == nil, name+":SetPrevLSN-after-append"+k, "txn.prevLSN is chained to the LSN returned by AppendLogRecord on every path", "path: "+w.DescribeWitness(fn, wit))
-				// the record's prevLSN argument comes from txn.GetPrevLSN (undo walks this chain)
-				c := ap.(ssa.CallInstruction)
-				rec := c.Common().Args[len(c.Common().Args)-1]
-				r.Check(DependsOn(rec, IsCallTo(a.TxnGetPrevLSN)), name+":record-carries-prevLSN"+k, "the appended record is built from txn.GetPrevLSN()", "record argument at "+w.InstrPos(ap)+" does not depend on txn.GetPrevLSN()")
+			for i, ap := range appends {
+				k := fmt.Sprintf("#%d", i+1)
+				ok, why := stampOK(fn, ap, 0)
+				r.Check(ok, name+":SetLSN-after-append"+k, "page LSN and txn.prevLSN are set from the LSN returned by AppendLogRecord on every path", why)
+				r.Check(prevInRecord(fn, ap, 0), name+":record-carries-prevLSN"+k, "the appended record is built from txn.GetPrevLSN()", "record appended at "+w.InstrPos(ap)+" does not depend on txn.GetPrevLSN()")
 			}
 		}
 		r.Floor("TablePage mutators", n, 6)
